@@ -1,5 +1,6 @@
 import SimilarVerif.Lemmas.Inline
 import SimilarVerif.Lemmas.F32
+import SimilarVerif.Lemmas.InlineTotal
 /-!
 # C16 — inline changes re-split each line losslessly; only changed words are emphasised
 
@@ -45,5 +46,50 @@ theorem emphasised_no_linebreak : type_of% @emphOK_noNL := @emphOK_noNL
 
 /-- … because non-newline tokens of the byte lines-and-newlines tokenizer contain no `\n` / `\r` -/
 theorem lnl_bytes_no_linebreak : type_of% @lnlNoNL_B := @lnlNoNL_B
+
+end SimilarVerif.C16
+
+namespace SimilarVerif.C16
+open SimilarVerif Spec InlineP
+
+/-- hypothesis (ii) discharged: the second-level diff (`capture_diff` over the word tokens, any algorithm, any
+clock, both clean-up variants) returns, and what it returns is a valid script over the two word lists -/
+theorem second_level_total : type_of% @InlineTotal.capture_tokens_total := @InlineTotal.capture_tokens_total
+theorem second_level_valid : type_of% @InlineTotal.capture_tokens_walk := @InlineTotal.capture_tokens_walk
+
+/-- **`replace_refined` without hypothesis (ii)**: only the segmenter's contract `SegsOK` is left -/
+theorem replace_refined_uncond : type_of% @InlineTotal.replace_refined_uncond := @InlineTotal.replace_refined_uncond
+
+/-- **`iter_inline_changes` never panics**: for every op of a valid line diff over non-empty line tokens and
+segmentations satisfying `SegsOK`, it returns `.ok` with the properties of `non_replace_is_plain` /
+`replace_refined` (whichever of the two gates fires or not) -/
+theorem inline_changes_total : type_of% @InlineTotal.inline_changes_total := @InlineTotal.inline_changes_total
+
+/-- the same for a word segmenter `sg` with the contract "every non-empty line is partitioned into non-empty words" -/
+theorem inline_changes_total_segmenter : type_of% @InlineTotal.inline_changes_total_segmenter :=
+  @InlineTotal.inline_changes_total_segmenter
+
+/-- from the two texts: line tiling, any algorithm, any clock — the line diff returns and every op refines -/
+theorem inline_text_diff_total : type_of% @InlineTotal.inline_text_diff_total := @InlineTotal.inline_text_diff_total
+
+/-- non-vacuity of the segmenter contract: one word per line -/
+example : ∀ line : Bytes, line ≠ [] → Partition ((fun l : Bytes => [l.length]) line) line.length := by
+  intro line h
+  have : 0 < line.length := List.length_pos_iff.2 h
+  simp [Partition]
+  omega
+
+/-- … so the end-to-end theorem applies, e.g. to the byte line tokenizer, the byte lines-and-newlines tokenizer
+and the one-word-per-line segmenter, for every algorithm and clock -/
+example (alg : Alg) (bo bn : Bytes) (w0 : World) :=
+  inline_text_diff_total tokenizeLinesAndNewlinesB TokP.tokenizeLinesAndNewlinesB_tiling (fun l => [l.length])
+    (by intro line h; have : 0 < line.length := List.length_pos_iff.2 h; simp [Partition]; omega)
+    alg false bo bn _ _ (TokP.tokenizeLinesB_tiling bo) (TokP.tokenizeLinesB_tiling bn) w0
+
+#print axioms second_level_total
+#print axioms replace_refined_uncond
+#print axioms inline_changes_total
+#print axioms inline_changes_total_segmenter
+#print axioms inline_text_diff_total
 
 end SimilarVerif.C16
